@@ -183,6 +183,19 @@ def det_worker(args):
                             digest = hf(dg).digest()
                         out = {"kind": "sig", "r": int.from_bytes(s1[0], "big"), "s": int.from_bytes(s1[1], "big")}
                         same = s1 == s2
+                        # a failed call in between (another hash, an encoder that raises, text instead of bytes) leaves no trace:
+                        # the key's DEFAULT hash still gives the same signature afterwards
+                        if extra == b"":
+                            for bad_call in (lambda: sk.sign_deterministic(dg, hashfunc=toy.xof(7), sigencode=lambda *a_: 1 // 0),
+                                             lambda: sk.sign_deterministic(u"text", hashfunc=toy.xof(9)),
+                                             lambda: sk.sign_digest_deterministic(dg, hashfunc=toy.xof(7), sigencode=lambda *a_: 1 // 0)):
+                                try:
+                                    bad_call()
+                                except BaseException:  # noqa
+                                    pass
+                            s3 = sk.sign_deterministic(dg, sigencode=util.sigencode_strings) if entry == "data" else \
+                                sk.sign_digest_deterministic(dg, sigencode=util.sigencode_strings, allow_truncate=True)
+                            same = same and s3 == s1
                     except BaseException as e:  # noqa
                         out, same, first, fargs = {"kind": type(e).__name__, "r": 0, "s": 0}, True, list(rec), list(gargs)
                         digest = dg if entry == "digest" else hf(dg).digest()
